@@ -167,7 +167,23 @@ class Check:
                                 goal = goal.t
                             if isinstance(goal, bool):
                                 goal = z3.BoolVal(goal)
-                            self.obls.append(Obl(f"{tag}.post.{nm}@p{k}", facts + extra, goal, kind="post", contract=c, cfg=cfg, clause=f"{tag}.post.{nm}", tactics=tac, meta={"path": k}))
+                            hy = facts + extra
+                            if "local" in tac:
+                                # a clause about a few scalars (e.g. sizes): only the quantifier-free facts over the goal's own symbols are used, so
+                                # that a refutation comes with a model instead of a time-out among unrelated quantified facts (fewer hypotheses: sound)
+                                gs = set()
+                                _syms(goal, gs, set())
+                                keep = []
+                                for h_ in hy:
+                                    if _has_quantifier(h_):
+                                        continue
+                                    a_ = set()
+                                    _syms(h_, a_, set())
+                                    if a_ and a_ <= gs:
+                                        keep.append(h_)
+                                hy = keep
+                                tac = tuple(t for t in tac if t != "local")
+                            self.obls.append(Obl(f"{tag}.post.{nm}@p{k}", hy, goal, kind="post", contract=c, cfg=cfg, clause=f"{tag}.post.{nm}", tactics=tac, meta={"path": k}))
                     else:
                         e = out[1]
                         allowed = c.raises(cx, cfg, inputs, e)
